@@ -414,6 +414,26 @@ func (r *replayer) dispatch(line []byte) error {
 			return err
 		}
 		r.histCase(c)
+	case "C08S":
+		var c SchedCase
+		if err := json.Unmarshal(line, &c); err != nil {
+			return err
+		}
+		r.schedCase(c)
+	case "C08R":
+		var c Case
+		if err := json.Unmarshal(line, &c); err != nil {
+			return err
+		}
+		if r.ocSeen == 0 {
+			r.raceCompileEmbedded()
+		}
+		r.ocSeen++
+		stride := 1
+		fmt.Sscan(r.opts["-stride"], &stride)
+		if stride <= 1 || r.ocSeen%stride == 1 {
+			r.raceCase(c)
+		}
 	case "C04P":
 		var c PipeCase
 		if err := json.Unmarshal(line, &c); err != nil {
